@@ -95,9 +95,31 @@ def build(ref, others=(), fails=(), panics=()):
         for x in sorted(w):
             writes_of[j].append(item_idx[x])
             last[x] = j
+    # context model (spec/Context.tla): every item any thread touched, with its discriminant and owner id
+    for g_ in [ref] + list(others):
+        for e in g_.evs:
+            if e["ev"] in ("Read", "Write", "DiskRead"):
+                item_idx.setdefault(tracelib.norm_item(e["item"]), len(item_idx) + 1)
+    item_disc = {}
+    for g_ in [ref] + list(others):
+        for e in g_.evs:
+            if e["ev"] in ("Read", "Write", "DiskRead"):
+                item_disc[tracelib.norm_item(e["item"])] = e["disc"]
+    final_read = {x: ref.jobs[x]["read"] for x in names}
+    for h, rws in ref.rewrites.items():
+        for (j, r) in rws:
+            final_read[j] = r
+    item_names = [x for x, _ in sorted(item_idx.items(), key=lambda kv: kv[1])]
     gj = {
+        "itemdisc": [item_disc.get(x, "?") for x in item_names],
+        "itemjob": [idx.get(x, 0) for x in item_names],
+        "itemfe": [x.startswith("Fe(") for x in item_names],
+        "jobfe": [x.startswith("Fe(") for x in names],
+        "finalread": [access_to_tla(final_read[x], idx) for x in names],
+        "write": [access_to_tla(ref.jobs[x]["write"], idx) for x in names],
+        "staledisk": [],
         "nitems": len(item_idx),
-        "items": [x for x, _ in sorted(item_idx.items(), key=lambda kv: kv[1])],
+        "items": item_names,
         "reads": [reads_of[x] for x in names],
         "writes": [writes_of[x] for x in names],
         "canonrf": [canon_rf[x] for x in names],
@@ -276,4 +298,28 @@ def slices(gj, max_real):
     for c in keys:
         if not any(c < o for o, _, _ in out):
             out.append((c, seen[c][0], seen[c][1]))
+    return out
+
+
+def context_log(g, gj):
+    """Reduce a recorded build to the events spec/Context.tla consumes."""
+    jidx = {n: i + 1 for i, n in enumerate(gj["names"])}
+    iidx = {n: i + 1 for i, n in enumerate(gj["items"])}
+    out = []
+    for e in g.evs:
+        ev = e["ev"]
+        if ev in ("JobStart", "JobEnd"):
+            if e["id"] in jidx:
+                out.append({"ev": ev, "job": jidx[e["id"]]})
+        elif ev in ("Read", "Write", "DiskRead"):
+            it = iidx.get(tracelib.norm_item(e["item"]))
+            if it is None:
+                continue
+            r = {"ev": ev, "job": jidx.get(e["job"], 0), "item": it}
+            if ev == "Read":
+                r["present"] = bool(e["present"])
+            elif ev == "Write":
+                r["changed"] = bool(e["changed"])
+                r["persisted"] = bool(e.get("persisted"))
+            out.append(r)
     return out
